@@ -563,6 +563,16 @@ def run(tier, seed, model_ok=True):
     for (cfg, ops), sr, MM in zip(cfgs, outs, CMs):
         guarded(res, dict({k: cfg[k] for k in ("N", "p", "routing", "buffer_kb", "policy", "sim_seed", "script")}, kind="conc"),
                 check_conc, res, cfg, sr, ops, CB, MM, model_ok)
+    # ---- (2b) a single broadcast payload larger than the send buffer (24 MB, library-default receive slots), shared traffic harness
+    from lib import campaign as K
+    from lib import traffic as T
+    from props import c01
+    hb, herr = C.build_harness("traffic")
+    if hb is None:
+        res.corr_failures.append({"relation": "harness builds against /repo", "what": (herr or "")[-800:], "case": None})
+    else:
+        big = [c for c in c01.special_cases(tier, seed) if getattr(c[1], "default_irecv_size", None) and any(op[2] == "bcast" for op in c[0].ops)]
+        K.run_cases(res, hb, big, ("delivery", "barrier"), extra=None, log_bytes=0, nontrivial=lambda out: out.get("bcasts", 0) > 0)
     # ---- (3) several communicators with different layouts in one process, one handler type
     sjobs = sub_jobs(tier)
     for j, sr in zip(sjobs, C.pmap(lambda j: run_sub(binary, j, seed), sjobs)):
@@ -629,6 +639,10 @@ def replay(data):
         print("replay: nothing executable recorded:", data.get("no_longer_checks"))
         return False
     res = C.Result()
+    if "scenario" in case:       # a case of the shared traffic harness (big broadcast)
+        from lib import campaign as K
+        hb, _ = C.build_harness("traffic")
+        return K.replay_case(hb, data, ("delivery", "barrier"), None, log_bytes=0)
     N, p = case["N"], case["p"]
     if case.get("kind") == "conc":
         cfg = {k: case[k] for k in ("N", "p", "routing", "buffer_kb", "policy", "sim_seed", "script")}
